@@ -265,6 +265,4 @@ example : ∃ s, Reach 1 1 s ∧ s.main = .returned := by
     (Step.toWait _ rfl)) (Step.store _ 0 (by decide) rfl)) (Step.release _ 0 (by decide) rfl (by decide)))
     (Step.waitSend _ 0 rfl (by decide) (by decide))) (Step.ret _ rfl)
 
-#print axioms return_complete
-#print axioms progress
 end P.Exec
